@@ -713,6 +713,13 @@ class Know:
         if op == 'eq':
             if not neg:
                 self._add_bound(c0, dd, 0, 0)
+            else:
+                # d != 0: tighten when 0 is an end point of what is known about d
+                lo, hi = self.interval(c0, dd)
+                if lo == 0:
+                    self._add_bound(c0, dd, 1, None)
+                elif hi == 0:
+                    self._add_bound(c0, dd, None, -1)
         else:
             if not neg:
                 self._add_bound(c0, dd, None, -1)
